@@ -79,7 +79,24 @@ def case(arg):
     ops = L.gen_ops(random.Random(seed), X.base_kind(kn), nops)
     b = kn.split(":")[-1]
     res = {"kind": kn, "seed": seed, "nops": nops, "fail": None, "channels": 0}
+    early = b in ("lnd2", "lnd3", "l2d") and rng.random() < 0.3
+    res["early"] = early
     try:
+        if early:
+            # a learner saved very early: more points were requested than the domain has corners (LearnerND draws the extra
+            # ones from its private random generator), only a few results arrived - too few for a triangulation - and the
+            # rest was discarded
+            ops = []
+            ncorner = 4 if b != "lnd3" else 8
+            r.ask(ncorner + rng.choice([1, 2, 3]), True)
+            out = list(r.outstanding)
+            keep = rng.sample(out[ncorner:], rng.randrange(1, len(out) - ncorner + 1)) if rng.random() < 0.6 else \
+                rng.sample(out, rng.choice([1, 2]))
+            for p in keep:
+                r.tell(p)
+            r.remove()
+            for p in list(r.outstanding):
+                r.tell(p)
         for op in ops:
             act = r.resolve(op)
             if act is None:
@@ -146,7 +163,13 @@ def case(arg):
             # next suggestions
             if b == "avg1d":
                 continue
-            for n in (1, 3):
+            if b == "l2d" and not exact and X.sync_l2d_stacks(kn, l, c):
+                # known mechanism (finding l2d_stack_cache): only the pickle channels carry Learner2D's suggestion stack, a
+                # file / copy_from restore starts with an empty one.  Counted; the stack is copied over so that every other
+                # difference between the original and the restored learner stays visible.
+                res.setdefault("l2d_stack", f"[{kn}] {chan}: the restored Learner2D has an empty suggestion stack, the original holds "
+                                            f"{sum(len(x._stack) for x in X.inner_learners(kn, l))} cached suggestion(s)")
+            for n in ((1, 3) if not early else (1, 3, 7, 11)):
                 if b == "seq" and n + len(r.told) > 10:
                     continue
                 try:
@@ -164,6 +187,9 @@ def case(arg):
                     return res
     finally:
         shutil.rmtree(scratch, ignore_errors=True)
+    if res["fail"] is None and res.get("l2d_stack"):
+        res["fail"] = ("suggestions_differ", res["l2d_stack"])
+        res["l2d_stack_only"] = True
     return res
 
 
@@ -227,7 +253,7 @@ def run(ctx):
             sig = f"C13.{cl}.{r['kind']}"
             if r.get("unevaluated_bound"):
                 sig = "C13.suggestions_differ:l1d_restore_with_unevaluated_bound"
-            if r["kind"].split(":")[-1] == "l2d" and cl == "suggestions_differ":
+            if r["kind"].split(":")[-1] == "l2d" and cl == "suggestions_differ" and r.get("l2d_stack_only"):
                 sig = "C13.suggestions_differ:l2d_stack_cache"
             failures.append({"clause": cl, "signature": sig, "detail": det,
                              "replay": {"kind": r["kind"], "seed": r["seed"], "nops": r["nops"]}})
